@@ -93,7 +93,10 @@ static Val run_lauth(const Val &c)
         case 3:
             if (mw) {
                 QByteArray head = "GET / HTTP/1.1\r\n";
+                for (auto &kv : op.at(1).l)          // a pair named ":method" is no header: it chooses the request method
+                    if (kv.at(0).asBytes() == ":method") head = kv.at(1).asBytes() + " / HTTP/1.1\r\n";
                 for (auto &kv : op.at(1).l) {
+                    if (kv.at(0).asBytes() == ":method") continue;
                     QByteArray v = kv.at(1).asBytes();
                     v.replace("<TOKEN:upper>", token.toUpper());
                     v.replace("<TOKEN:nobrace>", token.mid(1, token.size() - 2));
